@@ -38,7 +38,8 @@ MCInit == Init /\ cnt = [st |-> 0, fl |-> 0, cr |-> 0, ev |-> 0] /\ hist = <<>>
 StmtOK == pc.k = "idle" /\ cnt.st < MaxStmts /\ taint = {}
 
 MCNext ==
-  \/ /\ StmtOK /\ "create" \in Ops /\ \E t \in Tables : CreateStmt(t) /\ H([a |-> "create", t |-> t]) /\ Bump("st")
+  \/ /\ StmtOK /\ "create" \in Ops /\ \E t \in Tables, bad \in (IF BadVals = {} THEN {FALSE} ELSE BOOLEAN) :
+          CreateStmt(t, bad) /\ H([a |-> "create", t |-> t, bad |-> bad]) /\ Bump("st")
   \/ /\ StmtOK /\ "insert" \in Ops /\ \E t \in DmlTables, rows \in RowSeqs :
           OneBad(rows) /\ InsertStmt(t, rows) /\ H([a |-> "insert", t |-> t, rows |-> rows]) /\ Bump("st")
   \/ /\ StmtOK /\ "update" \in Ops /\ \E t \in DmlTables, w \in Wheres, v \in (Vals \ {9}) \cup (BadVals \cap {-1, -2}) :
